@@ -277,7 +277,7 @@ func assumeSyncOn() EdgeFilter {
 // assumeParamTrue: the named boolean parameter is true.
 func assumeParam(fn *ssa.Function, name string, val bool) EdgeFilter {
 	return assumeBool(func(v ssa.Value) (bool, bool) {
-		if p, ok := v.(*ssa.Parameter); ok && p.Parent() == fn && p.Name() == name {
+		if p, ok := v.(*ssa.Parameter); ok && p.Parent() == fn && paramRefName(p) == name {
 			return val, true
 		}
 		return false, false
